@@ -264,20 +264,6 @@ theorem Sim3_Retr_zero (eps : ℝ) (h0 : 0 ≤ eps) (X : Sim3 ℝ) : Sim3Retr ep
 
 /-! ## histories of in-place updates (statelessness) -/
 
-/-- `Exp(aₙ)·…·Exp(a₁)` for the updates `a₁, …, aₙ` in the order they are applied -/
-noncomputable def expProd (eps : ℝ) (as : List (Vec3 ℝ)) : Quat ℝ :=
-  as.foldl (fun P a => (so3Exp eps a).mul P) Quat.one
-
-theorem SO3_add_history_aux (eps : ℝ) (as : List (Vec3 ℝ)) : ∀ P X : Quat ℝ,
-    as.foldl (fun Y a => SO3Retr eps Y a) (P.mul X) = (as.foldl (fun P a => (so3Exp eps a).mul P) P).mul X := by
-  induction as with
-  | nil => intro P X; rfl
-  | cons a as ih =>
-    intro P X
-    simp only [List.foldl_cons, SO3Retr]
-    rw [← Quat.mul_assoc']
-    exact ih _ X
-
 /-- **`+` over any history**: updating one object by `X ← X + aᵢ` (`add_`, `+=`) for a list of tangent vectors of ANY length
 gives `Exp(aₙ)·…·Exp(a₁)·X`: the state after the history is a function of the initial value and the updates only, so a read
 (`Adj`, `Jinvp`, `Jr`, …) after the history is the read of that value — there is no other state in the model. -/
